@@ -474,6 +474,17 @@ def count_absorbed(body, self_path, crate=None):
         if k == "Closure":
             visit(n["body"], shield, absorbed)
             return
+        if k == "Match" and n.get("src") != "try" and len(n.get("arms", [])) == 2:
+            # `match self.parse_expr(lhs, state) { Ok(s) => Ok(s), Err(s) => self.parse_expr(rhs, s) }`: or_else written out
+            vs = [hirq.pat_variants(a["pat"]) for a in n["arms"]]
+            if sorted(v[0] for v in vs if len(v) == 1) == ["core::result::Result::Err", "core::result::Result::Ok"]:
+                erra = next(a for a, v in zip(n["arms"], vs) if v[0].endswith("::Err"))
+                eb = peel(erra["body"])
+                if not (kind(eb) == "Call" and callee(eb) == "core::result::Result::Err"):
+                    visit(n["scrut"], False, True)
+                    for a in n["arms"]:
+                        visit(a["body"], False, True)
+                    return
         if isinstance(n, dict):
             for c in hirq.children(n):
                 visit(c, shield, absorbed)
@@ -600,6 +611,12 @@ def pipeline(rep, meta, sfx):
 
     order = []
     conv_at = None
+    convert = role_fns(meta)["convert"]          # found by role (Rule -> OptimizedRule), wherever it was moved to
+    conv_paths = set(["pest_meta::optimizer::rule_to_optimized_rule"] + ([convert["path"]] if convert else []))
+    for b in meta.bodies:
+        if b["path"].startswith("pest_meta::optimizer::") and not b.get("exp") and b.get("inputs") == ["pest_meta::ast::Rule"] \
+                and b.get("output") == "pest_meta::optimizer::OptimizedRule":
+            conv_paths.add(b["path"])
     first = chains[0] if line_of(chains[0][0]) < line_of(chains[1][0]) else chains[1]
     second = chains[1] if first is chains[0] else chains[0]
     for i, a in enumerate(first[1]):
@@ -609,7 +626,7 @@ def pipeline(rep, meta, sfx):
             continue
         mod = t.split("::")[-2] if "::" in t else t
         order.append(mod if mod in PASSES else t.split("::")[-1])
-        if t == "pest_meta::optimizer::rule_to_optimized_rule":
+        if t in conv_paths:
             conv_at = len(order) - 1
     for p in PASSES:
         if p in order:
